@@ -2,6 +2,7 @@ package c09
 
 import (
 	"fmt"
+	"strconv"
 	"sync"
 	"sync/atomic"
 	"time"
@@ -245,6 +246,51 @@ func witnessSeriesLimit(c *core.Ctx, db string) error {
 	}
 	r.mseries(0, m)
 	c.Branch("witness-series-limit")
+	c.NonTrivial()
+	return r.err
+}
+
+// witnessSchemaFlushWindow: metricSchemaStore.Flush writes the not yet persisted items of every
+// schema of the immutable map, commits the kv family, and then (under the lock) marks ALL items of
+// those schema objects persisted. The objects are shared with the mutable map, so a field appended
+// between the write and the mark is marked persisted without having been written. When the object
+// has left memory (next flush) the schema is read from the kv family: the field is gone, and
+// len(Fields) hands its id out again.
+//
+//	field f1 = 0 ; PrepareFlush ; Flush parked before the mark ; field f2 = 1 ; Flush continues ;
+//	PrepareFlush + Flush (object leaves memory) ; field f3 -> 1, the id f2 was given in this run.
+func witnessSchemaFlushWindow(c *core.Ctx, db string) error {
+	r, err := newRunner(c, db, 1, 0)
+	if err != nil {
+		return err
+	}
+	defer r.close()
+	r.o.tag = "schema-flush-window-"
+	mid, _ := r.metric(0, 0)
+	m := int(mid)
+	r.field(m, 1)
+	r.mprepare()
+	op := fmt.Sprintf("swindow field %d %d", m, 2)
+	var b string
+	var parked bool
+	r.guard(op, func() string {
+		_, b, parked = raceTwo("index.schema.flush.beforeMark",
+			func() string { return okOut(r.s.meta.Flush()) },
+			func() string { return idOut(r.s.genField(m, 2)) })
+		return b
+	})
+	if !parked {
+		c.Fail("witness-not-scheduled", "swindow: Flush never reached yield point index.schema.flush.beforeMark")
+	}
+	r.o.syncDone()
+	if id, ok := parseID(b); ok {
+		r.o.observe(nameKey{"field", strconv.Itoa(m), "2"}, id, op)
+	}
+	r.mprepare()
+	r.mflush()
+	r.field(m, 3)
+	r.schema(m)
+	c.Branch("witness-schema-flush-window")
 	c.NonTrivial()
 	return r.err
 }
